@@ -85,6 +85,25 @@ def changed_since_baseline(baseline, r, ob_name):
     return "discharged on the baseline tree" if ob_name in set(b.get("discharged", [])) else None
 
 
+def contract_provers(key):
+    """the task-name prefixes / fragments whose obligations prove the callee contract `key` (caller side: contracts/*.py)"""
+    V = "validators:create.Validator."
+    table = {
+        V + "iter_errors": [V + "iter_errors@"], V + "descend": [V + "descend@"], V + "is_valid": [V + "is_valid@"], V + "is_type": [V + "is_type@"],
+        "exceptions:_Error._set": [V + "err_set@"], "_utils:equal": ["_utils:equal"], "_utils:uniq": ["_utils:uniq"],
+        "_format:FormatChecker.check": ["format:check"], "validators:RefResolver.resolve": ["validators:RefResolver.resolve"],
+        "validators:RefResolver.resolve_from_url": ["validators:RefResolver.resolve_from_url"], "validators:RefResolver.resolve_remote": ["validators:RefResolver.resolve_remote"],
+        "validators:RefResolver.resolve_fragment": ["validators:RefResolver.resolve_fragment"], "validators:RefResolver.push_scope": ["validators:RefResolver.scopes"],
+        "validators:RefResolver.pop_scope": ["validators:RefResolver.scopes"], "exceptions:best_match": ["entry:best_match@"],
+        "validators:validator_for": ["registry:validator_for"], "exceptions:_Error.create_from": ["entry:create_from@"],
+        "exceptions:ErrorTree.total_errors": ["tree:total_errors"], "exceptions:ErrorTree.__len__": ["tree:total_errors", "tree:methods"],
+        "cli:run": ["cli:run"], "exceptions:_Error.absolute_path": ["errors:absolute"],
+    }
+    if key.startswith("keyword:"):
+        return ["[%s]" % key.split(":", 1)[1]]
+    return table.get(key)
+
+
 def slug(s):
     return re.sub(r"[^A-Za-z0-9_.-]+", "_", s)[:120]
 
@@ -210,6 +229,16 @@ def run_check(spec, tier="quick", root="/repo", seed=0):
                             "formula": r.get("formula", "")[:300], "solver": r.get("solver"), "time_s": r.get("time_s")})
     if not samples:
         samples = [{"obligation": r["name"], "kind": r["kind"], "status": r["status"]} for r in obl[:5]] or [{"note": "no obligations"}]
+    # callee contracts the tasks of this check applied: proved by a task of this same check, or assumed from another one
+    used = sorted({k for r in results for k in (r.get("contracts_used") or [])})
+    names = [r["task"] for r in results]
+    proved_here, from_elsewhere = [], []
+    for k in used:
+        pv = contract_provers(k)
+        if pv and any(any(frag in n for frag in pv) for n in names):
+            proved_here.append(k)
+        else:
+            from_elsewhere.append(k + (" (no task proves this: assumed)" if pv is None else ""))
     level = spec.level
     cov = {
         "obligations": len(obl), "discharged": discharged,
@@ -218,6 +247,8 @@ def run_check(spec, tier="quick", root="/repo", seed=0):
         "by_backend": by_backend, "solver_time_s": round(solver_time, 2),
         "by_kind": _count(obl, "kind"),
         "functions_under_contract": sorted(functions),
+        "callee_contracts_proved_in_this_check": proved_here,
+        "callee_contracts_assumed_here": from_elsewhere,
         "function_source_hashes": functions,
         "samples": samples,
         "bounded_standins": [{k: v for k, v in s.items() if k != "failures"} | {"failures": len(s.get("failures", []))} for s in standins],
